@@ -195,9 +195,9 @@ func c12Leader(c *Ctx) {
 				chunkParam = p
 			}
 		}
-		ups := calls(fn, named(sp.upstream))
+		ups := callsAll(fn, named(sp.upstream))
 		mds := publishSites(fn)
-		dels := calls(fn, named("(*desync.queue).delete"))
+		dels := callsAll(fn, named("(*desync.queue).delete"))
 		if len(ups) == 1 && len(mds) == 1 && len(dels) == 1 && mds[0].data != nil && mds[0].err != nil {
 			up := ups[0].(*ssa.Call)
 			ua := up.Call.Args[len(up.Call.Args)-1]
